@@ -180,6 +180,11 @@ pub enum Place {
     WriteOffset(usize),
     DirtyFrames,
     DirtyOutput,
+    /// pair t iden : A -> B x A: the input frame is read again after t has run (a cursor that t leaves
+    /// displaced in the read frame shows in the second component)
+    ThenReread,
+    /// pair iden t : A -> A x B: t writes behind something already written
+    AfterCopy,
 }
 
 pub fn placements() -> Vec<Place> {
@@ -192,6 +197,8 @@ pub fn placements() -> Vec<Place> {
     }
     v.push(Place::DirtyFrames);
     v.push(Place::DirtyOutput);
+    v.push(Place::ThenReread);
+    v.push(Place::AfterCopy);
     v
 }
 
@@ -223,6 +230,8 @@ pub fn place(t: &Rc<Term>, p: Place) -> Rc<Term> {
             let c = Term::new(Tm::Comp(wn, un), a, &one);
             Term::new(Tm::Pair(c, t.clone()), a, &RT::prod(&one, b))
         }
+        Place::ThenReread => Term::new(Tm::Pair(t.clone(), Term::new(Tm::Iden, a, a)), a, &RT::prod(b, a)),
+        Place::AfterCopy => Term::new(Tm::Pair(Term::new(Tm::Iden, a, a), t.clone()), a, &RT::prod(a, b)),
         Place::DirtyOutput => {
             // comp (pair (comp (witness ones) unit) t) (drop iden) : A -> B, t writes into a reused frame
             let big = RT::word(6);
@@ -241,7 +250,11 @@ pub fn place(t: &Rc<Term>, p: Place) -> Rc<Term> {
 /// project the wrapped result back to t's result
 pub fn unplace(v: &Rc<RV>, p: Place) -> Rc<RV> {
     match p {
-        Place::WriteOffset(_) | Place::DirtyFrames => match &**v {
+        Place::ThenReread => match &**v {
+            RV::Pair(a, _) => a.clone(),
+            _ => panic!("wrapped result is not a pair"),
+        },
+        Place::WriteOffset(_) | Place::DirtyFrames | Place::AfterCopy => match &**v {
             RV::Pair(_, b) => b.clone(),
             _ => panic!("wrapped result is not a pair"),
         },
